@@ -145,6 +145,66 @@ Theorem C01_glr_model_overlap_refuted :
 Proof. exact glr_model_overlap. Qed.
 Print Assumptions C01_glr_model_overlap_refuted.
 
+(* Tokenisation, for ALL tables, scanners, inputs, set orders, positions and fuel, with
+   consume_input on, under the condition that keeps the heads of one frontier in step: all
+   tokens found at one input position by any two states have one length (stated on the token
+   lists the scanner model returns, so a lexical disambiguation that restores uniformity
+   counts); STOP has no recognizer match and is never shifted; ACCEPT stands in the STOP column
+   only; the layout skipper [sk] never retreats.  Then every tree of the returned forest has
+   leaves that begin right after the leading layout, are each matched by their recognizer,
+   follow one another separated by layout only, and only layout follows the last one.
+   Together with C01_glr_model_sound: every tree is a derivation tree OF THE INPUT.
+   Without the length condition the statement is false (C01_glr_model_overlap_refuted).
+   Proof: a second invariant (Proofs/GLRTokProofs.v) assigning a raw position to every
+   frontier number; frontier numbers stand in for node identity because links are keyed by
+   "<frontier>_<state>". *)
+From PV Require Import Proofs.GLRTokProofs Proofs.GLRTokFull.
+Theorem C01_glr_model_tokenisation :
+  forall (g : grammar) (tb : table) (start : N),
+    table_struct g tb start = true ->
+    forall (terms : list term_info) (rx : N -> N -> option N) (in_len stop_id : N) (lexdis : bool)
+           (skipws : N -> skres) (rorder : list nat -> list nat -> list nat) (sk : N -> N),
+      (forall p q, skipws p = SkOk q -> q = sk p) ->
+      (forall p, p <= sk p) ->
+      (forall p, rx stop_id p = None) ->
+      (forall s s', ~ In (Shift s') (cell tb s stop_id)) ->
+      (forall s y, In Accept (cell tb s y) -> y = stop_id) ->
+      (forall s s' p y l y' l',
+         In (y, l) (tokens_at tb terms rx in_len stop_id true lexdis s p) ->
+         In (y', l') (tokens_at tb terms rx in_len stop_id true lexdis s' p) ->
+         y <> stop_id -> y' <> stop_id -> l = l') ->
+      forall (fuel : nat) (pos : N) (nodes : forest) (root : nat),
+        glr_parse g tb terms rx in_len stop_id true lexdis skipws rorder fuel pos = GLRForest nodes root ->
+        forall t, unfolds (glr_forest nodes root) (pred (length (glr_forest nodes root))) t ->
+          chain_ok sk (leaves t) /\ All (leaf_ok (tokok rx)) (leaves t) /\
+          match bounds (leaves t) with
+          | None => sk pos = in_len
+          | Some (fs, le) => fs = sk pos /\ le <= in_len /\ sk le = in_len
+          end.
+Proof. exact glr_tok_sound. Qed.
+Print Assumptions C01_glr_model_tokenisation.
+
+(* the assembled parser under boolean conditions the harness evaluates on every
+   correspondence case (command 212): consume_input on, ws layout, and glr_tok_checks =
+   stop_row_zero && no_stop_shift && accept_only_stop && rx_uniform (no two terminals match
+   with different lengths at one position of this input).  Conclusion: the full C01 statement
+   for every tree of the model's forest. *)
+Theorem C01_glr_model_valid_full :
+  forall (c : pconf) (inp : pinput) (fuel : nat) (pos start : N) (nodes : forest) (root : nat),
+    table_struct (pc_g c) (pc_tb c) start = true ->
+    glr_tok_checks c inp = true ->
+    glr_parse_full c inp fuel pos = GLRForest nodes root ->
+    forall t, unfolds (glr_forest nodes root) (pred (length (glr_forest nodes root))) t ->
+      wf_tree (pc_g c) t /\ root_sym (pc_g c) t = Some (NT start) /\
+      chain_ok (skip_ws (pc_ws c) inp) (leaves t) /\ All (leaf_ok (tokok_of inp)) (leaves t) /\
+      match bounds (leaves t) with
+      | None => skip_ws (pc_ws c) inp pos = in_len inp
+      | Some (fs, le) => fs = skip_ws (pc_ws c) inp pos /\ le <= in_len inp /\
+                         skip_ws (pc_ws c) inp le = in_len inp
+      end.
+Proof. exact glr_full_tok_sound. Qed.
+Print Assumptions C01_glr_model_valid_full.
+
 (* non-vacuity of C01_glr_model_sound: E: E '+' E | 'n' on "n+n+n" -- the table passes
    table_struct and the model returns a forest of 12 links whose root has two alternatives *)
 Example C01_glr_model_nonvacuous :
@@ -154,3 +214,7 @@ Example C01_glr_model_nonvacuous :
    | _ => false
    end) = true.
 Proof. exact ok_bool. Qed.
+
+(* ... and of C01_glr_model_valid_full: the same run meets glr_tok_checks *)
+Example C01_glr_model_valid_nonvacuous : glr_tok_checks ok_conf ok_inp = true.
+Proof. vm_compute. reflexivity. Qed.
